@@ -22,8 +22,8 @@ PROP = "C15"
 N_NETS = 3
 
 TIERS = {
-    "quick": {"runs": 60000, "wall": 75, "chunk": 400},
-    "thorough": {"runs": 1200000, "wall": 840, "chunk": 1000},
+    "quick": {"runs": 70000, "wall": 75, "chunk": 400},
+    "thorough": {"runs": 1500000, "wall": 840, "chunk": 1000},
 }
 STEP_CAP = 200000
 SHRINK_BUDGET = 600
